@@ -163,6 +163,7 @@ fn compute_one_level(
     let mut inner_partition = map_node_names_to_hashsets(graph);
     let mut deg_info = get_degree_information(graph, partition);
     let nbrs = graph.get_successors_map();
+    let preds = graph.get_predecessors_map();
     let shuffled_nodes = get_shuffled_node_names(graph, seed);
     let mut nb_moves = 1;
     let mut improvement = false;
@@ -171,7 +172,10 @@ fn compute_one_level(
         for u in &shuffled_nodes {
             let mut best_mod = 0.0;
             let mut best_com: usize = *node2com.get(u).unwrap();
-            let weights2com = get_neighbor_weights(graph, u, nbrs, &node2com);
+            let mut weights2com = get_neighbor_weights(graph, u, nbrs, &node2com);
+            if graph.specs.directed {
+                add_predecessor_weights(graph, u, preds, &node2com, &mut weights2com);
+            }
             subtract_degree_from_best_com(best_com, u, &mut deg_info, graph.specs.directed);
             #[rustfmt::skip]
             update_best_com(&mut best_com, &mut best_mod, weights2com, &deg_info, m, resolution, graph.specs.directed);
@@ -462,6 +466,30 @@ where
         // *acc.get_mut(node2com.get(v).as_ref().unwrap()).unwrap() += edge.weight;
         acc
     })
+}
+
+/// For a given node `u` of a directed graph adds the weights of the edges from its
+/// predecessors to `weights2com`. The change in directed modularity when `u` joins a
+/// community depends on the edges between `u` and that community in both directions.
+fn add_predecessor_weights<T, A>(
+    graph: &Graph<T, A>,
+    u: &T,
+    preds: &HashMap<T, HashSet<T>>,
+    node2com: &HashMap<T, usize>,
+    weights2com: &mut HashMap<usize, f64>,
+) where
+    T: Hash + Eq + Clone + Ord + Display + Send + Sync,
+    A: Clone + Send + Sync,
+{
+    if let Some(hs) = preds.get(u) {
+        for v in hs {
+            if u == v {
+                continue;
+            }
+            let edge = graph.get_edge(v.clone(), u.clone()).unwrap();
+            *weights2com.entry(*node2com.get(v).unwrap()).or_insert(0.0) += edge.weight;
+        }
+    }
 }
 
 /// Creates the initial mapping of node names in the `graph` to
